@@ -74,7 +74,7 @@ func (w *world) runReflagCell(c cell) {
 	o := database.NewInterface(&database.Options{Local: x.l, Internal: x.i, CacheSize: cacheSize(c.Cache)})
 	r, err := o.Get(x.key)
 	if err != nil || r == nil {
-		w.b.Violation(vsig("permitted-refused", "get", w.backend, false, ""),
+		w.b.Violation(vsig("permitted-refused", "get", w.backend, "", ""),
 			fmt.Sprintf("an observer with Local=%v Internal=%v could not read an unflagged record", x.l, x.i),
 			map[string]any{"child": w.sp, "cell": c.coord(), "error": fmt.Sprint(err)})
 		return
